@@ -2,6 +2,7 @@ package main
 
 import (
 	"fmt"
+	"go/constant"
 	"go/token"
 	"os"
 	"sort"
@@ -115,6 +116,58 @@ func (c *PathCtx) Resolve(v ssa.Value) ssa.Value {
 		v = sel
 	}
 	return v
+}
+
+// evalCond decides a branch condition from the phi selections of the path: a (negated) phi resolved to
+// a boolean constant, a comparison of two resolved constants, or a nil test of a value whose nil-ness
+// is known on the path.  ok is false when the path does not decide it.
+func (c *PathCtx) evalCond(cond ssa.Value) (val bool, ok bool) {
+	neg := false
+	for {
+		if u, isU := cond.(*ssa.UnOp); isU && u.Op == token.NOT {
+			neg = !neg
+			cond = u.X
+			continue
+		}
+		break
+	}
+	rv := c.Resolve(cond)
+	if k, isC := rv.(*ssa.Const); isC && k.Value != nil && k.Value.Kind() == constant.Bool {
+		return constant.BoolVal(k.Value) != neg, true
+	}
+	b, isB := rv.(*ssa.BinOp)
+	if !isB || (b.Op != token.EQL && b.Op != token.NEQ) {
+		return false, false
+	}
+	x, y := c.Resolve(b.X), c.Resolve(b.Y)
+	_, xPhi := b.X.(*ssa.Phi)
+	_, yPhi := b.Y.(*ssa.Phi)
+	if !xPhi && !yPhi {
+		return false, false // nothing path-specific: leave it to the condition keys
+	}
+	var eq bool
+	switch {
+	case isNilConst(y):
+		ns := c.NilState(b.X)
+		if ns == 0 {
+			return false, false
+		}
+		eq = ns == +1
+	case isNilConst(x):
+		ns := c.NilState(b.Y)
+		if ns == 0 {
+			return false, false
+		}
+		eq = ns == +1
+	default:
+		kx, okx := x.(*ssa.Const)
+		ky, oky := y.(*ssa.Const)
+		if !okx || !oky || kx.Value == nil || ky.Value == nil {
+			return false, false
+		}
+		eq = constant.Compare(kx.Value, token.EQL, ky.Value)
+	}
+	return (eq == (b.Op == token.EQL)) != neg, true
 }
 
 // NilState classifies an interface/pointer value on this path: +1 nil, -1 non-nil, 0 unknown.
@@ -418,16 +471,15 @@ func (q *PathQuery) Run() {
 				}
 				break
 			}
-			// a condition on a phi resolved on this path
-			if rv := ctx.Resolve(t.Cond); rv != t.Cond {
-				if c, ok := rv.(*ssa.Const); ok && c.Value != nil {
-					if c.Value.String() == "true" {
-						push(s.b.Succs[0], s.assign)
-					} else {
-						push(s.b.Succs[1], s.assign)
-					}
-					break
+			// a condition decided by the phi selections of this path (results of inlined helpers,
+			// merged booleans, nil tests of a merged error)
+			if v, ok := ctx.evalCond(t.Cond); ok {
+				if v {
+					push(s.b.Succs[0], s.assign)
+				} else {
+					push(s.b.Succs[1], s.assign)
 				}
+				break
 			}
 			if v, ok := s.assign[key]; ok {
 				if v == pol {
